@@ -120,7 +120,7 @@ def run(ctx):
     quick = ctx.tier == "quick"
     ctx.cov["rule"] = ("pairs of small real-weighted automata with weights k/8 (equal up to renaming / useless states, or differing in one weight; epsilon arcs, redundant and useless states, empty language): counterexample / == / hash vs exact equivalence over the rationals "
                        "(all strings shorter than the total number of states), returned counterexamples re-evaluated exactly; min: termination under a wall-clock limit, equivalence with the input on all short strings, number of states vs the exact Hankel rank; non-trivial = automaton with non-empty language")
-    ok, out = ctx.build(["proofs/TzengProofs.vo", "model/Tzeng.vo"])
+    ok, out = ctx.build(["proofs/TzengProofs.vo", "model/Tzeng.vo", "proofs/ConjugateProofs.vo"])
     if ok:
         ctx.prove("props/C14.v")
     else:
